@@ -68,6 +68,12 @@ NUM_HISTORY_TOL = 1e-6  # m, same arithmetic => expected bitwise (DESIGN C08)
 # ------------------------------------------------------------------------------------------------
 # jobs
 def jobs(tier):
+    from .. import repotests
+
+    return _jobs(tier) + [repotests.job()]  # + the repository's own tests as a workload for invariant hooks
+
+
+def _jobs(tier):
     q = tier == "quick"
     return [
         {"name": "stream-analytical", "n": 2400 if q else 60000, "eop": "zero", "mode": "stream", "family": "analytical"},
@@ -79,6 +85,12 @@ def jobs(tier):
 
 
 def requirements(tier):
+    from .. import repotests
+
+    return dict(_requirements(tier), **repotests.MIN["C08"])
+
+
+def _requirements(tier):
     req = {}
     for k in ANALYTICAL:
         req[f"stream:{k}"] = 40
